@@ -204,3 +204,51 @@ def exec_roundtrip(c):
 
 def execute(c):
     return exec_read(c) if c["op"] == "read" else exec_roundtrip(c)
+
+
+class LogStream(io.StringIO):
+    """a text stream that logs what the reader does with it (line hand-outs, end of stream, close)"""
+
+    def __init__(self, text, events):
+        super().__init__(text)
+        self._events = events
+        self._k = 0
+
+    def __next__(self):
+        try:
+            line = super().__next__()
+        except StopIteration:
+            self._events.append(["eof"])
+            raise
+        self._k += 1
+        self._events.append(["next", self._k])
+        return line
+
+    def close(self):
+        self._events.append(["close"])
+        super().close()
+
+
+def exec_line_events(c):
+    """C02: the reader loop, observed line by line on a text stream"""
+    from swcgeom.core import Tree
+    from swcgeom.core.swc_utils import read_swc
+    o = c["o"]
+    text = render_file(c["file"], 0, 1, True)          # LF, final newline: one stream line per abstract line
+    events = []
+    src = LogStream(text, events)
+    kw = dict(sort_nodes=(o["mode"] == 0), reset_index=(o["mode"] == 1))
+    if o["nex"]:
+        kw["extra_cols"] = ["e"]
+    try:
+        with warnings.catch_warnings():
+            warnings.simplefilter("ignore")
+            if o["entry"] == 0:
+                df, _ = read_swc(src, **kw)
+                n = len(df)
+            else:
+                n = len(Tree.from_swc(src, **kw).id())
+        events.append(["returned", int(n)])
+    except Exception:          # noqa: BLE001 - the exception is the observation
+        events.append(["raised"])
+    return {"events": events}
